@@ -561,6 +561,7 @@ ANCHOR_ATTRS = {
     'C06': _FLAGS_P + [('process_states.Waiting', '_waiting_future')], 'C09': [('workchains._Conditional', '_predicate')], 'C13': [('process_states.Waiting', '_waiting_future')],
     'C17': [('process_comms.ProcessLauncher', '_persister'), ('process_comms.ProcessLauncher', '_loader'), ('process_comms.ProcessLauncher', '_load_context')],
     'C20': [(_CA, '_action')],
+    'C16': [(_P, '_communicator'), ('process_comms.ProcessLauncher', '_load_context')],
 }
 
 
